@@ -59,11 +59,16 @@ def _special(seed):
     out.append(("dupcol", [[1.0, 1.0, 2.0, 0.5], [0.0, 0.0, 1.0, 3.0], [2.0, 2.0, -1.0, 1.0], [1.0, 1.0, 0.0, 0.0]]))
     out.append(("badscale", [[1e6, 2e-6, 1.0], [3e6, -1e-6, 2.0], [-2e6, 4e-6, 0.5], [5e5, 1e-6, -1.0]]))
     out.append(("rank1", [[1.0, 2.0, 3.0], [2.0, 4.0, 6.0], [3.0, 6.0, 9.0], [-1.0, -2.0, -3.0]]))
+    # repeated rows (the same x measured again): with conflicting targets sample PCov-CUR is drawn to the copies
+    Xr = np.array(fam.generic_list(8, 6, seed + 11, 1)[0], float)
+    Xr[0:2] *= 3.0
+    Xr[6:] = Xr[0:2]
+    out.append(("copyrow8x6", Xr.tolist()))
     return out
 
 
 def _ys(n, tier="thorough"):
-    out = [[float((i * 7 + 3) % 5 - 2) for i in range(n)], [float(i % 2) for i in range(n)]]
+    out = [[float((i * 7 + 3) % 5 - 2) + (9.0 if i == n - 2 else (-8.0 if i == n - 1 else 0.0)) * (n == 8) for i in range(n)], [float(i % 2) for i in range(n)]]
     return out if tier == "thorough" else out[:1]
 
 
@@ -240,6 +245,8 @@ def cases(group):
                         yield dict(kind=kind, dir=d, X=X, y=y, legs=[dict(p=_params(kind, cfg, init, n, t, "absolute"))])
                     for t in rel:
                         yield dict(kind=kind, dir=d, X=X, y=y, legs=[dict(p=_params(kind, cfg, init, n, t, "relative"))])
+                        if not group["label"].startswith("L") and n == N:
+                            yield dict(kind=kind, dir=d, X=X, y=y, legs=[dict(p=_params(kind, cfg, init, n, t, "relative"))], used=True)
     else:
         top = min(N, 5)
         for y in ylist[:1] if not sel.needs_y(kind) else ylist[:1]:
@@ -377,6 +384,10 @@ def judge_state(r, s, kind, d, X, y, p, warned_threshold, scores, leg_is_warm, n
             T = np.asarray(s.transform(X))
             if not np.array_equal(T, X[:, sup]):
                 r.fail("transform-not-masked-columns", "transform shape %s" % (T.shape,))
+        # read-only accessors must leave the reported selection as it was
+        after = [int(i) for i in np.asarray(s.selected_idx_)]
+        if after != idx_l or not np.array_equal(np.asarray(s.X_selected_), Xs):
+            r.fail("accessor-changes-the-selection", "selected_idx_ %s became %s after get_support / transform" % (idx_l, after))
     except Exception as e:
         r.fail("derived-view-crash:%s" % type(e).__name__, repr(e))
 
@@ -463,6 +474,13 @@ def check(case):
         p = leg["p"]
         if li == 0:
             s = sel.make(kind, d, **p)
+            if case.get("used"):  # a USED selector: cold-fitted before on other data of the same shape
+                Xo = X[::-1, ::-1].copy() * 40.0 + 3.0
+                yo = None if y is None else (y[::-1].copy() * -0.5 + 0.25)
+                _, exc0 = sel.fit_quiet(s, Xo, yo)
+                if exc0 is not None:
+                    r.fail("crash:%s" % type(exc0).__name__, "first fit of the used selector: %r" % exc0)
+                    return r
         else:
             for key in ("n_to_select", "score_threshold", "score_threshold_type"):
                 if key in p:
